@@ -72,8 +72,9 @@ def removeFirst (x : ObsDesc) : List ObsDesc → List ObsDesc
   | y :: ys => if x == y then ys else y :: removeFirst x ys
 
 /-- evolution of the specification state over one received frame; `reported` = the observations the
-    responder listed in its QueryResp (what the mapper now knows) -/
-def specStep (own : List Nat) (g : Glob) (s : SpecSt) (f : List Nat) (reported : List ObsDesc) : SpecSt :=
+    responder listed in its QueryResp (what the mapper now knows); `dom` = how many distinct observations
+    may be pending before a further one is dropped (C07's domain: 300; C19: the implementation's cap) -/
+def specStep (own : List Nat) (dom : Nat) (g : Glob) (s : SpecSt) (f : List Nat) (reported : List ObsDesc) : SpecSt :=
   if f.length < 32 then s else
   if isReset0 f then { mapper := .none, pending := [], overflow := false, iconCache := none }
   else if isReset f then { s with mapper := .none }
@@ -96,7 +97,7 @@ def specStep (own : List Nat) (g : Glob) (s : SpecSt) (f : List Nat) (reported :
     if fRealDst f != own then s else
     let o : ObsDesc := { typ := if fOp f = 4 then 1 else 0, realSrc := fRealSrc f, src := fEthSrc f, dst := fEthDst f }
     if s.pending.any (fun p => obsKey p == obsKey o) then s
-    else if s.pending.length ≥ 300 then { s with overflow := true }
+    else if s.pending.length ≥ dom then { s with overflow := true }
     else { s with pending := o :: s.pending }
   else s
 
@@ -106,9 +107,11 @@ def reportedOf (fx : List FxObs) : List ObsDesc :=
   | [] => []
 
 /-- the specification states before each frame of a trace -/
-def specStates (own : List Nat) : SpecSt → List RxObs → List (SpecSt × RxObs)
+def specStatesDom (own : List Nat) (dom : Nat) : SpecSt → List RxObs → List (SpecSt × RxObs)
   | _, [] => []
-  | s, r :: rest => (s, r) :: specStates own (specStep own r.glob s r.frame (reportedOf r.fx)) rest
+  | s, r :: rest => (s, r) :: specStatesDom own dom (specStep own dom r.glob s r.frame (reportedOf r.fx)) rest
+
+def specStates (own : List Nat) : SpecSt → List RxObs → List (SpecSt × RxObs) := specStatesDom own 300
 
 /-! ## C02 -/
 
